@@ -163,6 +163,22 @@ pub fn exec(op: &str, args: &[&str], out: &mut Out) -> Option<()> {
             bad.push("Borrow/AsRef".into());
         }
     }
+    // aliasing must not matter: b taken as a view of a's own buffer (same start address) compares like an equal text elsewhere
+    if a.starts_with(b.as_str()) {
+        if let Ok(pv) = Pointer::parse(&a[..b.len()]) {
+            use std::hash::{Hash, Hasher};
+            let h = |p: &Pointer| {
+                let mut s = std::collections::hash_map::DefaultHasher::new();
+                p.hash(&mut s);
+                s.finish()
+            };
+            if (pa == pv) != want_eq || (pv == pa) != want_eq || pa.cmp(pv) != want || pv.cmp(pa) != want.reverse()
+                || pa.partial_cmp(pv) != Some(want) || h(pv) != h(pb)
+            {
+                bad.push("aliased-view".into());
+            }
+        }
+    }
     let word = match want {
         Ordering::Less => "lt",
         Ordering::Equal => "eq",
